@@ -707,6 +707,86 @@ def multi_predicate_case(ctx: Ctx, rng):
             return
 
 
+def two_location_case(ctx: Ctx, real: Real, rng):
+    """ONE model class at several locations of one retort, with providers whose predicates look ABOVE the model (P[Outer].a.x,
+    P.b.x, ~P.a.x & P.x, chained or not): every field request is served by the first provider matching ITS location, whichever
+    location was built first - the loader of the model at one location is not the loader of the model at another"""
+    import dataclasses
+
+    from adaptix import P, Retort, dumper, loader
+
+    @dataclasses.dataclass
+    class TInner:
+        x: int
+
+    order = rng.choice([("a", "b"), ("b", "a")])
+    TOuter = dataclasses.make_dataclass("TOuter", [(nm, TInner) for nm in order])
+    preds = {
+        "P[Outer].a.x": (lambda: P[TOuter].a.x, {"a"}), "P.b.x": (lambda: P.b.x, {"b"}), "P.a.x": (lambda: P.a.x, {"a"}),
+        "~P.a.x & P.x": (lambda: ~P.a.x & P.x, {"b", "top"}), "P[Inner].x": (lambda: P[TInner].x, {"a", "b", "top"}),
+        "P[Outer].b": (lambda: P[TOuter].b.x | P[TOuter].b.x, {"b"}),
+    }
+    direction = rng.choice(["load", "dump"])
+    make = loader if direction == "load" else dumper
+    entries = []
+    for i in range(rng.randint(1, 3)):
+        pname = rng.choice(list(preds))
+        chain = rng.choice([None, None, "first", "last"])
+        entries.append((pname, chain, i))
+
+    def fn(i):
+        return lambda v, i=i: (v * 10 + i) if isinstance(v, int) else v
+    recipe = [make(preds[p][0](), fn(i), {None: None, "first": real.Chain.FIRST, "last": real.Chain.LAST}[ch]) for p, ch, i in entries]
+    warm = rng.choice(["none", "inner-first"])
+    retort = Retort(recipe=recipe)
+
+    def expect(loc):
+        v = 1
+        matching = [(p, ch, i) for p, ch, i in entries if loc in preds[p][1]]
+        # first non-chain provider answers; chained ones before it wrap what follows
+        out = v
+        stack = []
+        for p, ch, i in matching:
+            if ch is None:
+                stack.append(("final", i))
+                break
+            stack.append((ch, i))
+        else:
+            stack.append(("builtin", None))
+        # evaluate: FIRST = user function then the rest; LAST = the rest then user function
+        def run_from(k, val):
+            kind, i = stack[k]
+            if kind == "final":
+                return fn(i)(val)
+            if kind == "builtin":
+                return val
+            if kind == "first":
+                return run_from(k + 1, fn(i)(val))
+            return fn(i)(run_from(k + 1, val))
+        return run_from(0, out)
+    case = {"suite": "two-location", "entries": entries, "order": list(order), "direction": direction, "warm": warm}
+    ctx.note_case(case, nontrivial=True, kind=f"two-location:{direction}:{warm}")
+    try:
+        if warm == "inner-first":
+            top = retort.load({"x": 1}, TInner).x if direction == "load" else retort.dump(TInner(1))["x"]
+            if top != expect("top"):
+                ctx.fail("two-location:first-match", f"top-level Inner.x is {top}, first match gives {expect('top')}; recipe {entries}", case)
+                return
+        if direction == "load":
+            o = retort.load({nm: {"x": 1} for nm in order}, TOuter)
+            got = {nm: getattr(o, nm).x for nm in order}
+        else:
+            d = retort.dump(TOuter(**{nm: TInner(1) for nm in order}))
+            got = {nm: d[nm]["x"] for nm in order}
+    except Exception as e:  # noqa: BLE001
+        ctx.fail("two-location:raises", f"{direction} raises {type(e).__name__}: {e}"[:200], case)
+        return
+    want = {nm: expect(nm) for nm in order}
+    if got != want:
+        ctx.fail("two-location:first-match", f"{direction} of Outer{order} with recipe {entries} (first use: {warm}): field values {got}, "
+                 f"first match per location gives {want}", case)
+
+
 def conversion_facade_case(ctx: Ctx, rng):
     """first-match order through the conversion facade: recipe of the retort, `extend(recipe=...)` (prepends) and the per-call
     `recipe=` of get_converter / convert (prepends to everything), requested in any order on one retort"""
@@ -791,6 +871,8 @@ def run(ctx: Ctx):
         conversion_facade_case(ctx, ctx.rng)
     for _ in range(ctx.budget(120, 2000)):
         multi_predicate_case(ctx, ctx.rng)
+    for _ in range(ctx.budget(200, 3000)):
+        two_location_case(ctx, real, ctx.rng)
     ctx.extra["exhaustive"] = False
     ctx.extra["exhaustive_part"] = f"router items/walk: all checker lists of length <= {5 if thorough else 4} over 5 checkers x 12 requests"
 
@@ -814,6 +896,9 @@ def search(ctx: Ctx):
     if not ctx.failures:
         for _ in range(1000):
             multi_predicate_case(ctx, ctx.rng)
+    if not ctx.failures:
+        for _ in range(1500):
+            two_location_case(ctx, real, ctx.rng)
 
 
 def replay(ctx: Ctx, case) -> bool:
